@@ -6,6 +6,7 @@ import (
 	"go/parser"
 	"go/token"
 	"path/filepath"
+	"slices"
 
 	"github.com/bmatcuk/doublestar/v4"
 	MapSet "github.com/deckarep/golang-set/v2"
@@ -47,9 +48,16 @@ func (facade *PackagesFacade) FSet() *token.FileSet {
 }
 
 func (facade *PackagesFacade) GetAllSourceFiles() []*ast.File {
-	result := make([]*ast.File, 0, len(facade.files))
-	for _, file := range facade.files {
-		result = append(result, file)
+	// Files are visited in file-name order so that the outcome of a run does not depend on map iteration order
+	fileNames := make([]string, 0, len(facade.files))
+	for fileName := range facade.files {
+		fileNames = append(fileNames, fileName)
+	}
+	slices.Sort(fileNames)
+
+	result := make([]*ast.File, 0, len(fileNames))
+	for _, fileName := range fileNames {
+		result = append(result, facade.files[fileName])
 	}
 	return result
 }
